@@ -65,6 +65,19 @@ def reduce_const(ex, kind, shape, elem, cond=None, sort="real"):
                                zand(c1, to_z3(elem(tuple(sk))) != to_z3(o.elem(tuple(sk))))))
         ctx.assume(z3.Or(z3.Not(same_shape), differ, c == o.const))
     reds.append(info)
+    if kind in ("min", "max") and cond is None:
+        # what a minimum / maximum IS (real arithmetic, no NaN): a bound of every element, attained at some position
+        w = [ctx.fresh("rwit") for _ in shape]
+        nonempty = zand(*[to_z3(n) > 0 for n in shape])
+        inb = zand(*[zand(x >= 0, x < to_z3(n)) for x, n in zip(w, shape)])
+        ctx.assume(z3.Implies(nonempty, zand(inb, to_z3(elem(tuple(w))) == c)))
+        q = [z3.Int(f"rq{d}_{len(reds)}") for d in range(len(shape))]
+        inq = zand(*[zand(x >= 0, x < to_z3(n)) for x, n in zip(q, shape)])
+        eq = to_z3(elem(tuple(q)))
+        body = z3.Implies(inq, c <= eq if kind == "min" else c >= eq)
+        from .parents import _triggers
+        trig = [t for t in _triggers(eq, q[0]) if all(any(a.eq(x) for a in t.children()) for x in q)] if q else []
+        ctx.assume(z3.ForAll(q, body, patterns=trig) if trig else z3.ForAll(q, body))
     return c
 
 
